@@ -6,11 +6,14 @@
     PROVED for every policy combination, every number of bandit objects in the process, every interleaving of the
     calls addressed to one bandit with calls addressed to the others (any merge of the call lists): the results
     of bandit i, and its final state, are those of bandit i driven alone through its own calls.
+    COROLLARIES (Repro.v), the property's own sentence: two equal bandit values driven through equal call sequences return equal results and end in equal
+    states - in one process under any interleaving with each other and with other bandits, and in two processes with different company; appending a newly
+    constructed bandit to the process changes no result of the existing ones.
     ..._partial: the model (after fix D5) has no state shared between instances; that the CODE has none is what
     the correspondence (randomness trace of every generator request) and the four-interpreter relation check on
     every run.  Hash-seed and process-boundary independence are runtime behaviour no model exhibits. *)
 From Coq Require Import List ZArith Bool Arith QArith Qcanon Permutation.
-From MW Require Import Num Assoc AssocFacts Rng Par CF CFInv CFClean CFForget CFSpec Matrix Lin Warm WarmInv Nbr NbrFacts NbrIndep LshFacts Clu Tree CellFacts Mab FacadeCF FacadeArms MoreFacts NumLaws CFAlg Sim Extra QcInst OrderFacts ExpIrrel LinInv FacadeLin LpInv NbrInv CluTreeInv FacadeAll ToyFacts C09All C10All LinForget LinSim MatrixFacts GaussJordan LinSpec NbrIndepGen CluIndep C17Lin WarmIdem C14More LshScale TreeLeaf Rename PopSpec CopyFacts StatFacts CluBatch LinWarm.
+From MW Require Import Num Assoc AssocFacts Rng Par CF CFInv CFClean CFForget CFSpec Matrix Lin Warm WarmInv Nbr NbrFacts NbrIndep LshFacts Clu Tree CellFacts Mab FacadeCF FacadeArms MoreFacts NumLaws CFAlg Sim Extra QcInst OrderFacts ExpIrrel LinInv FacadeLin LpInv NbrInv CluTreeInv FacadeAll ToyFacts C09All C10All LinForget LinSim MatrixFacts GaussJordan LinSpec NbrIndepGen CluIndep C17Lin WarmIdem C14More LshScale TreeLeaf Rename PopSpec CopyFacts StatFacts CluBatch LinWarm Repro.
 Import ListNotations.
 
 Theorem C04_isolation_under_every_interleaving_partial :
@@ -22,4 +25,52 @@ Theorem C04_isolation_under_every_interleaving_partial :
 Proof. exact @isolation. Qed.
 Print Assumptions C04_isolation_under_every_interleaving_partial.
 
+Theorem C04_equal_bandits_equal_results_in_one_process :
+  forall (R A G : Type) (N : Num R) (aeqb : A -> A -> bool) (RG : RngOps R G) 
+    (w : list (@mab R A G)) (calls : list (nat * (@op R A))) (i j : nat) (m : (@mab R A G)),
+  nth_error w i = Some m ->
+  nth_error w j = Some m ->
+  only i calls = only j calls ->
+  only i (snd (wrun N aeqb RG w calls)) = only j (snd (wrun N aeqb RG w calls)) /\
+  nth_error (fst (wrun N aeqb RG w calls)) i = nth_error (fst (wrun N aeqb RG w calls)) j.
+Proof. exact @equal_bandits_equal_results_same_process. Qed.
+Print Assumptions C04_equal_bandits_equal_results_in_one_process.
+
+Theorem C04_equal_bandits_equal_results_in_two_processes :
+  forall (R A G : Type) (N : Num R) (aeqb : A -> A -> bool) (RG : RngOps R G) 
+    (w1 w2 : list (@mab R A G)) (calls1 calls2 : list (nat * (@op R A))) (i j : nat) (m : (@mab R A G)),
+  nth_error w1 i = Some m ->
+  nth_error w2 j = Some m ->
+  only i calls1 = only j calls2 ->
+  only i (snd (wrun N aeqb RG w1 calls1)) = only j (snd (wrun N aeqb RG w2 calls2)) /\
+  nth_error (fst (wrun N aeqb RG w1 calls1)) i = nth_error (fst (wrun N aeqb RG w2 calls2)) j.
+Proof. exact @equal_bandits_equal_results_two_processes. Qed.
+Print Assumptions C04_equal_bandits_equal_results_in_two_processes.
+
+Theorem C04_constructing_another_bandit_changes_nothing :
+  forall (R A G : Type) (N : Num R) (aeqb : A -> A -> bool) (RG : RngOps R G) 
+    (w : list (@mab R A G)) (extra : (@mab R A G)) (calls : list (nat * (@op R A))) (i : nat) (m : (@mab R A G)),
+  nth_error w i = Some m ->
+  only i (snd (wrun N aeqb RG (w ++ [extra]) calls)) = only i (snd (wrun N aeqb RG w calls)).
+Proof. exact @constructing_another_bandit_changes_nothing. Qed.
+Print Assumptions C04_constructing_another_bandit_changes_nothing.
+
+
+(* non-vacuity: a process with three bandits - two equal Thompson Sampling bandits (objects 0 and 2) and an EpsilonGreedy bandit with another generator state
+   (object 1) - and an interleaving in which objects 0 and 2 receive the same calls at different times, with calls on object 1 in between: the hypotheses
+   of the same-process theorem hold, and the results of objects 0 and 2 are equal and non-trivial (by evaluation) *)
+Definition rq (z : Z) : Qc := Q2Qc (inject_Z z).
+Definition r_orc : @oracle Qc Z := mkOracle [] [] [] (fun _ _ => 0%nat) [1%nat].
+Definition r_ts : @mab Qc Z nat := mkMab (ICf (cf_init QcNum KThompson (rq 0) None [1; 2]%Z)) false 3%nat.
+Definition r_gr : @mab Qc Z nat := mkMab (ICf (cf_init QcNum KGreedy (Q2Qc (1 # 2)) None [4; 5]%Z)) false 9%nat.
+Definition r_fit := Fit [1; 2; 1]%Z [rq 1; rq 0; rq 1] None r_orc.
+Definition r_calls : list (nat * @op Qc Z) :=
+  [(0, r_fit); (1, Fit [4; 5]%Z [rq 2; rq 3] None r_orc); (0, PredictExp None r_orc); (2, r_fit); (1, Predict None r_orc);
+   (2, PredictExp None r_orc); (0, Predict None r_orc); (1, PredictExp None r_orc); (2, Predict None r_orc)]%nat.
+Example C04_same_process_hypotheses_satisfiable :
+  nth_error [r_ts; r_gr; r_ts] 0 = Some r_ts /\ nth_error [r_ts; r_gr; r_ts] 2 = Some r_ts /\
+  only 0%nat r_calls = only 2%nat r_calls /\
+  only 0%nat (snd (wrun QcNum Z.eqb ToyRng [r_ts; r_gr; r_ts] r_calls)) = only 2%nat (snd (wrun QcNum Z.eqb ToyRng [r_ts; r_gr; r_ts] r_calls)) /\
+  length (only 0%nat (snd (wrun QcNum Z.eqb ToyRng [r_ts; r_gr; r_ts] r_calls))) = 3%nat.
+Proof. split; [vm_compute; reflexivity|]. split; [vm_compute; reflexivity|]. split; [vm_compute; reflexivity|]. split; vm_compute; reflexivity. Qed.
 
